@@ -1,4 +1,5 @@
 //! C15: Adam7 pass geometry and the public row-expansion helper.
+use crate::pngbuild::*;
 use crate::refimpl::*;
 use crate::util::*;
 use png::verif_hooks::adam7 as hk;
@@ -146,6 +147,68 @@ fn expand_image_case(o: &mut Out, rng: &mut Rng, w: u32, h: u32, bits: usize, ex
     }
 }
 
+
+/// Public-API formulation: an interlaced PNG built by the harness, decoded row by row; the reported
+/// (pass, line, width) must be the specification's rows, and re-assembling them with the public helper into a
+/// dirty buffer must give the image.
+fn api_case(o: &mut Out, rng: &mut Rng, w: u32, h: u32, color: u8, depth: u8) {
+    let s = ImageSpec { w, h, color, depth, interlaced: true };
+    let rows = random_rows(&s, w, h, rng);
+    let filters: Vec<u8> = (0..7).map(|_| rng.below(5) as u8).collect();
+    let ck = rng.below(7);
+    let (file, _) = simple_png(&s, &rows, &filters, ck, 1 + rng.below(3) as usize, rng);
+    let bits = samples(color) * depth as usize;
+    let stride = s.row_bytes(w) + *rng.pick(&[0usize, 0, 2]);
+    let fill = *rng.pick(&[0x00u8, 0xFF, 0x5A]);
+    let want_rows = adam7_rows_ref(w, h);
+    let r = guarded(|| -> Result<(Vec<String>, Vec<u8>), String> {
+        let mut dec = png::Decoder::new(std::io::Cursor::new(&file));
+        dec.set_transformations(png::Transformations::IDENTITY);
+        let mut rd = dec.read_info().map_err(|e| format!("read_info: {}", e))?;
+        let mut dest = vec![fill; stride * h as usize];
+        let mut infos = vec![];
+        loop {
+            match rd.next_interlaced_row() {
+                Ok(Some(row)) => {
+                    let info = match row.interlace() {
+                        png::InterlaceInfo::Adam7(i) => *i,
+                        _ => return Err("non-adam7 info on interlaced image".into()),
+                    };
+                    infos.push(format!("{:?}", info));
+                    png::expand_interlaced_row(&mut dest, stride, row.data(), &info, bits as u8);
+                }
+                Ok(None) => break,
+                Err(e) => return Err(format!("row: {}", e)),
+            }
+        }
+        Ok((infos, dest))
+    });
+    o.direct_checks += 1;
+    o.count(&format!("api.c{}d{}", color, depth));
+    o.distinct(&format!("A{}x{}-{}-{}", w, h, color, depth));
+    let want_infos: Vec<String> = want_rows.iter().map(|(p, l, lw)| format!("{:?}", png::Adam7Info::new(*p, *l, *lw))).collect();
+    let mut want = vec![fill; stride * h as usize];
+    for y in 0..h as usize {
+        for q in 0..(w as usize * bits) {
+            let bit = (rows[y][q / 8] >> (7 - q % 8)) & 1;
+            let d = y * stride * 8 + q;
+            if bit == 1 { want[d / 8] |= 1 << (7 - d % 8); } else { want[d / 8] &= !(1 << (7 - d % 8)); }
+        }
+    }
+    let fail = match &r {
+        Ok(Ok((infos, dest))) => {
+            if *infos != want_infos { Some(("reported-interlaced-rows-differ-from-specification", infos.join(";"))) }
+            else if *dest != want { Some(("reassembled-interlaced-image-differs", hex(dest))) } else { None }
+        }
+        Ok(Err(e)) => Some(("valid-interlaced-png-rejected", e.clone())),
+        Err(m) => Some(("panic-decoding-interlaced-png", m.clone())),
+    };
+    if let Some((kind, got)) = fail {
+        o.violation(viol(kind, vec![("w", w.to_string()), ("h", h.to_string()), ("color", color.to_string()), ("depth", depth.to_string()),
+            ("stride", stride.to_string()), ("file", jstr(&hex(&file))), ("impl", jstr(&got)), ("spec_rows", jstr(&want_infos.join(";"))), ("spec_image", jstr(&hex(&want)))]));
+    }
+}
+
 pub fn run(a: &Args) {
     let mut o = Out::new(&a.out);
     let mut rng = Rng::new(a.seed);
@@ -234,6 +297,23 @@ pub fn run(a: &Args) {
                 expand_image_case(&mut o, &mut rng, w, h, bits, extra, model_rows);
             }
         }
+    }
+    // (4) through the public decoding API
+    let kinds: [(u8, u8); 15] = [(0, 1), (0, 2), (0, 4), (0, 8), (0, 16), (2, 8), (2, 16), (3, 1), (3, 2), (3, 4), (3, 8), (4, 8), (4, 16), (6, 8), (6, 16)];
+    let m = if thorough { 24 } else { 11 };
+    for w in 1..=m {
+        for h in 1..=m {
+            let n = if thorough { 5 } else { 1 };
+            for _ in 0..n {
+                let (c, d) = *rng.pick(&kinds);
+                api_case(&mut o, &mut rng, w, h, c, d);
+            }
+        }
+    }
+    for _ in 0..(if thorough { 300 } else { 30 }) {
+        let (c, d) = *rng.pick(&kinds);
+        let (w, h) = (rng.range(1, 130) as u32, rng.range(1, 40) as u32);
+        api_case(&mut o, &mut rng, w, h, c, d);
     }
     o.finish();
 }
